@@ -18,6 +18,10 @@ RULE = ('case = (table, backend, sequence of measure names); the lattice is Conc
         'L_max, sub-selections keeping top and bottom, lattices after remove: ONLY stability = definition is judged there, the '
         'bounds presuppose the complete lattice), `history` (intermediate calc_concepts_measures on a reduced / partial / '
         'object-sharing lattice, then the complete lattice restored from the SAME concept objects and judged as usual); '
+        '`wide` (2..6 objects x 64..130 attributes: objects told apart only by columns >= 64, spread / duplicated columns; the '
+        'driver enumerates the concepts from the object side), `tall` (11..13 objects, two-digit indexes), `dupnames` (duplicated '
+        'object and attribute names, also under reordering / pruning / histories), `ctxmut` (the SAME context object used, then '
+        'changed through the public setters K.data.data / object_names / attribute_names, then used again: judged for the current content); '
         'non-trivial = table neither all-true nor all-false with >= 2 rows; distinct = distinct (table, backend, names, variant)')
 EXHAUSTIVE = {'quick': 'all tables with n<=4 objects, m<=3 attributes (5050) x 3 backends, every concept of each lattice',
               'thorough': 'all tables with n<=5, m<=4, n*m<=15 (43242) x 3 backends, every concept of each lattice'}
@@ -26,7 +30,8 @@ EXPLANATION = ('stability is pinned uniquely (Fca.C16.stability_def: model = |{S
                'exponentiated log bound (1-Stab)*2^Dmin <= |M| are evaluated in exact rational arithmetic by the Lean driver on the '
                'IMPLEMENTATION\'s numbers, and in floating point (margin 1e-9) on the harness side; the model values (proved to '
                'satisfy all of these for every concept lattice) are compared with the implementation as well')
-ASSUMPTIONS = ['tables have n>=1 rows and m>=1 columns', 'bounds / log bound / arrays are judged on complete concept lattices (from_context, re-ordered, or restored through a '
+ASSUMPTIONS = ['tables have n>=1 rows and m>=1 columns (up to 130 columns in the wide stream); object / attribute names are arbitrary strings, '
+               'duplicates allowed (the measures are defined on object indexes)', 'bounds / log bound / arrays are judged on complete concept lattices (from_context, re-ordered, or restored through a '
                'remove/add/grow/shared-object history; the driver re-checks completeness + covers against the brute-force concept '
                'set on every such case); on pruned lattices (Sofia L_max, sub-selections, after remove) only stability = definition '
                'is judged, every listed pair being re-checked to be a genuine concept',
@@ -107,6 +112,56 @@ def gen(tier, seed, boost=False):
             names += [rng3.choice(NAMES) for _ in range(rng3.randint(0, 1))]
             rng3.shuffle(names)
             yield dict(stream='history', be=BACKENDS[i % 3], rows=rows, names=names, hist=[kind, rng3.randrange(10 ** 6)], mid=mid)
+    # shape extremes: more than 64 attributes (bit packing), few objects so that 2^|extent| stays small
+    rng4 = random.Random(seed * 15485863 + 1618)
+    k = 0
+    for core in G.tables_upto(3, 2):
+        if not G.is_mixed(core):
+            continue
+        for fill in (0, 1):    # objects differ ONLY in the columns 64.. ; column 0 constant
+            rows = [[fill] * 64 + list(r) + [0] for r in core]
+            yield dict(stream='wide', be=BACKENDS[k % 3], rows=rows, names=ORDERS[k % len(ORDERS)], wide=True)
+            k += 1
+    for i in range(150 if tier == 'quick' else 1500):
+        yield dict(stream='wide', be=BACKENDS[i % 3], rows=_wide_table(rng4), names=[rng4.choice(NAMES) for _ in range(rng4.randint(1, 3))],
+                   wide=True)
+    # two-digit object indexes
+    for i in range(6 if tier == 'quick' else 40):
+        rows = G.random_table(rng4, 13, 3, nmin=11, mmin=2)
+        yield dict(stream='tall', be=BACKENDS[i % 3], rows=rows, names=[rng4.choice(['stability_bounds', 'log_stability_lbound', 'LStab'])])
+    # duplicated object / attribute names (FormalContext accepts them): plain, re-ordered, pruned and history variants
+    small2 = [rows for rows in G.tables_upto(4, 3) if G.is_mixed(rows) and len(rows) >= 2]
+    rng4.shuffle(small2)
+    dtabs = small2[:150 if tier == 'quick' else 1200] + \
+        [G.random_table(rng4, 8, 6, nmin=3, mmin=2) for _ in range(100 if tier == 'quick' else 1000)]
+    for i, rows in enumerate(dtabs):
+        objs, attrs = _dup_names(rng4, len(rows), 'g'), _dup_names(rng4, len(rows[0]), 'm')
+        base = dict(stream='dupnames', be=BACKENDS[i % 3], rows=rows, objs=objs, attrs=attrs)
+        v = i % 4
+        if v == 0 or v == 1:
+            yield dict(base, names=[rng4.choice(NAMES) for _ in range(rng4.randint(1, 3))])
+        elif v == 2:
+            yield dict(base, names=[rng4.choice(NAMES)], order=rng4.choice(['reversed', 'rotated', ['shuffle', rng4.randrange(10 ** 6)],
+                                                                            ['readd', rng4.randrange(10 ** 6)]]))
+        else:
+            mid = [rng4.choice(NAMES[:3])]
+            yield dict(base, names=[rng4.choice(NAMES[:3]), rng4.choice(NAMES)], mid=mid,
+                       hist=[rng4.choice(['remove', 'grow', 'shared']), rng4.randrange(10 ** 6)])
+            yield dict(base, names=[], prune=[rng4.choice(['select', 'remove']), rng4.randrange(10 ** 6)])
+    # the same context object: used, changed through its public setters, used again (answers must be those of the current content)
+    for i in range(200 if tier == 'quick' else 2000):
+        if i % 2:
+            rows = G.random_table(rng4, 7, 5, nmin=2, mmin=2)
+        else:
+            rows = rng4.choice(small2)
+        n, m = len(rows), len(rows[0])
+        how = rng4.choice(['data', 'data', 'data+names', 'names'])
+        rows0 = rows if how == 'names' else _perturb(rng4, rows)
+        mut = dict(rows0=rows0, how=how, objs0=_dup_names(rng4, n, 'h') if rng4.random() < 0.5 else None,
+                   attrs0=_dup_names(rng4, m, 'k') if rng4.random() < 0.5 else None)
+        named = how != 'data'
+        yield dict(stream='ctxmut', be=BACKENDS[i % 3], rows=rows, names=[rng4.choice(NAMES) for _ in range(rng4.randint(1, 3))], mut=mut,
+                   objs=_dup_names(rng4, n, 'g') if named else mut['objs0'], attrs=_dup_names(rng4, m, 'm') if named else mut['attrs0'])
     # seeded random larger cases (extents up to 10)
     nrand = 400 if tier == 'quick' else 4000
     if boost:
@@ -121,6 +176,49 @@ def gen(tier, seed, boost=False):
         rows = G.random_table(rng, 4, 3)
         nm = rng.choice(['Stab', 'lstab', 'stability ', '', 'stability_bound', 'log_stability', 'xyz'])
         yield dict(stream='malformed', kind='badname', be=rng.choice(BACKENDS), rows=rows, name=nm)
+
+
+def _wide_table(rng):
+    """2..6 objects x 64..130 attributes built from a small core of distinguishing columns"""
+    n = rng.randint(2, 6)
+    m = rng.choice([64, 65, 66, 70, 96, 127, 128, 129, 130, rng.randint(65, 130), rng.randint(65, 130)])
+    k = rng.randint(1, 4)
+    while True:
+        core = [[int(rng.random() < 0.5) for _ in range(k)] for _ in range(n)]
+        if len({tuple(r) for r in core}) > 1:
+            break
+    fam = rng.choice(['tail', 'tail', 'spread', 'dup', 'random'])
+    if fam == 'random':
+        d = rng.choice((0.1, 0.5, 0.9))
+        return [[int(rng.random() < d) for _ in range(m)] for _ in range(n)]
+    if fam == 'dup':     # every column is a copy of a core column or constant
+        src = [rng.randrange(-2, k) for _ in range(m)]
+        return [[(1 if j == -1 else 0 if j == -2 else core[g][j]) for j in src] for g in range(n)]
+    const = [int(rng.random() < 0.25) for _ in range(m)]
+    lo = max(0, min(64, m - k)) if fam == 'tail' else 0
+    pos = rng.sample(range(lo, m), k)
+    rows = [list(const) for _ in range(n)]
+    for g in range(n):
+        for t, j in enumerate(pos):
+            rows[g][j] = core[g][t]
+    return rows
+
+
+def _dup_names(rng, n, prefix):
+    """n names drawn from a pool smaller than n (duplicates guaranteed for n >= 2)"""
+    p = rng.randint(1, max(1, n - 1))
+    return [f'{prefix}{rng.randrange(p)}' for _ in range(n)]
+
+
+def _perturb(rng, rows):
+    """another table of the same shape"""
+    out = [list(r) for r in rows]
+    for _ in range(rng.randint(1, max(1, len(rows) * len(rows[0]) // 2))):
+        i, j = rng.randrange(len(rows)), rng.randrange(len(rows[0]))
+        out[i][j] = 1 - out[i][j]
+    if rng.random() < 0.3:
+        rng.shuffle(out)
+    return out
 
 
 def frac(x):
@@ -157,7 +255,10 @@ def _logd(v, n_attrs):
 
 def _lattice(c):
     from fcapy.lattice import ConceptLattice
-    K = make_context(c['rows'], c['be'])
+    if c.get('mut'):
+        K = _mutated_context(c)
+    else:
+        K = make_context(c['rows'], c['be'], c.get('objs'), c.get('attrs'))
     L = ConceptLattice.from_context(K)
     order = c.get('order')
     if order:
@@ -183,6 +284,29 @@ def _lattice(c):
     if c.get('hist'):
         L = _history(c, K, L)
     return K, L
+
+
+def _mutated_context(c):
+    """a PRIVATE context object: built with the old content, used (lattice + every measure), then changed through the public
+    setters to the content of the case"""
+    from fcapy.context import FormalContext
+    from fcapy.lattice import ConceptLattice
+    from fcapy.lattice import concept_measures as cms
+    mut = c['mut']
+    K = FormalContext(data=[[bool(v) for v in r] for r in mut['rows0']], object_names=mut.get('objs0'),
+                      attribute_names=mut.get('attrs0'), backend=c['be'])
+    L0 = ConceptLattice.from_context(K)
+    for i in range(len(L0)):
+        cms.stability(i, L0, K), cms.stability_bounds(i, L0), cms.log_stability_lbound(i, L0, K.n_bin_attrs)
+    for nm in NAMES:
+        L0.calc_concepts_measures(nm, K)
+    L0.measures
+    if mut['how'] in ('data', 'data+names'):
+        K.data.data = [[bool(v) for v in r] for r in c['rows']]
+    if mut['how'] in ('names', 'data+names'):
+        K.object_names = list(c['objs'])
+        K.attribute_names = list(c['attrs'])
+    return K
 
 
 def _mid(L):
@@ -299,7 +423,7 @@ def requests(c, io):
     if c.get('prune'):
         return [dict(op='C16.table', be=SHORT[c['be']], rows=c['rows'], w=w, concepts=io['concepts'], children=io['children'],
                      stab=io['stab'], lb=[], ub=[], logd=[], names=[])]
-    return [dict(op='C16.table', be=SHORT[c['be']], rows=c['rows'], w=w, concepts=io['concepts'], children=io['children'],
+    return [dict(op='C16.table', objside=bool(c.get('wide')), be=SHORT[c['be']], rows=c['rows'], w=w, concepts=io['concepts'], children=io['children'],
                  stab=io['stab'], lb=io['lb'], ub=io['ub'],
                  logd=[(x['d'] if x['d'] is None or x['d'] >= 0 else 0) for x in io['log']], names=c['names'])]
 
@@ -427,7 +551,7 @@ def nontrivial(c):
 
 
 def key(c):
-    return [c.get('rows'), c.get('be'), c.get('names'), c.get('kind'), c.get('s'), c.get('name'), c.get('order'), c.get('prune'), c.get('hist'), c.get('mid')]
+    return [c.get('rows'), c.get('be'), c.get('names'), c.get('kind'), c.get('s'), c.get('name'), c.get('order'), c.get('prune'), c.get('hist'), c.get('mid'), c.get('objs'), c.get('attrs'), c.get('mut')]
 
 
 def branch(c, io, rep):
@@ -447,6 +571,18 @@ def branch(c, io, rep):
         return out
     if c.get('hist'):
         out.append('history:' + c['hist'][0])
+    if c.get('wide'):
+        m = len(c['rows'][0])
+        out.append('wide:m>64' if m > 64 else 'wide:m=64')
+        heads = {tuple(r[:64]) for r in c['rows']}
+        if m > 64 and len(heads) < len({tuple(r) for r in c['rows']}):
+            out.append('wide:objects-differ-only-beyond-col-64')
+    if c.get('mut'):
+        out.append('ctxmut:' + c['mut']['how'])
+    if c.get('objs') and len(set(c['objs'])) < len(c['objs']):
+        out.append('dup-object-names')
+    if c.get('attrs') and len(set(c['attrs'])) < len(c['attrs']):
+        out.append('dup-attribute-names')
     out.append('concepts:%s' % ('1' if n == 1 else '2-4' if n <= 4 else '5-8' if n <= 8 else '9-16' if n <= 16 else '17+'))
     out.append('maxextent:%d' % max(len(x[0]) for x in io['concepts']))
     fr = lambda p: Fraction(p[0], p[1])
@@ -476,12 +612,51 @@ def signature(c, io, rep, v):
     return f"C16:{v.get('what', v.get('kind'))}"
 
 
+def _drop(xs, i):
+    return None if xs is None else xs[:i] + xs[i + 1:]
+
+
 def shrink(c):
     if c.get('kind') == 'powerset':
         return
-    yield from G.shrink_table_case(c)
+    rows = c['rows']
+    n, m = len(rows), len(rows[0])
+    mut = c.get('mut')
+
+    def variant(new_rows, ri=None, cj=None):
+        d = dict(c, rows=new_rows)
+        if ri is not None:
+            d['objs'] = _drop(c.get('objs'), ri)
+        if cj is not None:
+            d['attrs'] = _drop(c.get('attrs'), cj)
+        if mut:
+            mm = dict(mut)
+            if ri is not None:
+                mm['rows0'], mm['objs0'] = _drop(mut['rows0'], ri), _drop(mut.get('objs0'), ri)
+            if cj is not None:
+                mm['rows0'], mm['attrs0'] = [_drop(r, cj) for r in mut['rows0']], _drop(mut.get('attrs0'), cj)
+            d['mut'] = mm
+        return d
+    if n > 1:
+        for i in range(n):
+            yield variant(rows[:i] + rows[i + 1:], ri=i)
+    if m > 1:
+        for j in range(m):
+            yield variant([r[:j] + r[j + 1:] for r in rows], cj=j)
     if c.get('names') and len(c['names']) > 1:
         for i in range(len(c['names'])):
-            d = dict(c)
-            d['names'] = c['names'][:i] + c['names'][i + 1:]
-            yield d
+            yield dict(c, names=c['names'][:i] + c['names'][i + 1:])
+    if c.get('objs') and not mut and len(set(c['objs'])) < n:
+        pass    # the duplicated names are the point of the case: kept
+    cells = [(i, j) for i in range(n) for j in range(m) if rows[i][j]]
+    for i, j in cells[:400]:
+        nr = [list(r) for r in rows]
+        nr[i][j] = 0
+        yield variant(nr)
+    if mut:
+        for i in range(n):
+            for j in range(m):
+                if mut['rows0'][i][j]:
+                    r0 = [list(r) for r in mut['rows0']]
+                    r0[i][j] = 0
+                    yield dict(c, mut=dict(mut, rows0=r0))
